@@ -42,6 +42,7 @@ THEOREMS = [
     "Mesa.Legacy.C18_legacy_moveToEmpty_reject_unchanged",
     "Mesa.Legacy.C18_legacy_step_reject_unchanged",
     "Mesa.Legacy.C18_legacy_rejected_calls_deletable",
+    "Mesa.Legacy.C18_legacy_reads_same_after_deletion",
     "Mesa.Legacy.C18_legacy_net_step_reject_unchanged",
     "Mesa.Legacy.C18_legacy_net_rejects_exactly",
     "Mesa.Legacy.C18_legacy_net_rejected_calls_deletable",
